@@ -1,3 +1,4 @@
+import NgoVerif.Proofs.C16heads
 import NgoVerif.Generated.Tables
 import NgoVerif.Model.Projection
 import NgoVerif.Meta.Fold
@@ -209,5 +210,12 @@ own declaration lists, under the parameter names the class declares, and replace
 theorem C16_wiring :
     Tables.API_ARGS.lookup "projection" = some (["input_", "input_predicates"], "input_", "input_") ∧
     Tables.CTOR_PARAMS.lookup "projection" = some ["prg", "input_predicates"] := by decide
+
+/-- **projection keeps every head and adds only plain-headed auxiliary rules**: every statement of the result of the
+model of `ProjectionTranslator.execute` is a source statement verbatim, a source rule with the same head over another
+body, or a new rule whose head is a plain positive atom -/
+theorem C16_heads_kept (prg : Prog) (inputs : List Pred) (out : Prog) (h : projection prg inputs = .ok out) :
+    ∀ s ∈ out, ∃ o ∈ prg, Proofs.C16heads.FromStm o s :=
+  Proofs.C16heads.projection_heads prg inputs out h
 
 end NgoVerif
